@@ -41,6 +41,8 @@ def gen_base(rng, metric, equal_sizes=False, n_rows=None):
     rows = []
     for i in range(n):
         k = k_eq if equal_sizes else rng.choice([1, 2, 3, 3, 4, 5, 6])
+        if i == 0 and not equal_sizes:
+            k = 1                      # every base holds a point mass (single-support distribution)
         k = min(k, N)
         cols = sorted(rng.sample(range(N), k))
         rows.append([[c, 0.05 + rng.random()] for c in cols])
@@ -198,7 +200,7 @@ def explicit_reference(rng, base, metric):
 def sc_wass_formats(rng, metric, sid):
     # the lil transform of this clone cannot take vector sets of different sizes unless metric == cosine (a defect
     # repaired by another builder, f7e2ca8 in /repo): equal support sizes and uniform re-encodings for the others
-    equal = metric != "cosine"
+    equal = False           # (the ragged-lil defect is repaired in /repo: f7e2ca8)
     base = gen_base(rng, metric, equal_sizes=equal)
     L0 = to_lists(base)
     sc = {"type": "scenario", "id": sid, "kind": "wass-formats", "est": "wasserstein", "metric": metric,
